@@ -376,3 +376,14 @@ func main() {
 
 // extraGenerators lets other files of this package add Gen modules (each returns file name and content).
 var extraGenerators []func() (string, string)
+
+// findFunc returns the declaration of the top-level function (or method) `name` in f, or nil.
+// Shared helper: several per-property generators need it.
+func findFunc(f *ast.File, name string) *ast.FuncDecl {
+	for _, d := range f.Decls {
+		if fd, ok := d.(*ast.FuncDecl); ok && fd.Name.Name == name {
+			return fd
+		}
+	}
+	return nil
+}
